@@ -8,10 +8,18 @@ pub struct OrderMap<K, V>(Vec<(K, V)>);
 /// regardless of order.
 impl<K: PartialEq, V: PartialEq> PartialEq for OrderMap<K, V> {
     fn eq(&self, other: &Self) -> bool {
+        // Check inclusion both ways, as key equality is not transitive
+        // (numbers are equal with a tolerance).
+        fn included<K: PartialEq, V: PartialEq>(
+            a: &[(K, V)],
+            b: &[(K, V)],
+        ) -> bool {
+            a.iter()
+                .all(|(k, v)| b.iter().any(|(bk, bv)| k == bk && v == bv))
+        }
         self.0.len() == other.0.len()
-            && self.0.iter().all(|(k, v)| {
-                other.0.iter().any(|(ok, ov)| k == ok && v == ov)
-            })
+            && included(&self.0, &other.0)
+            && included(&other.0, &self.0)
     }
 }
 
